@@ -111,6 +111,21 @@ struct CapData : rtosc::RtData {
 };
 
 #ifdef RT_TREE_DEFINE
+// A callback as applications write them: a functor with by-value captures that do not fit into
+// std::function's local storage.  std::function puts it on the heap WHEN THE TABLE IS BUILT;
+// invoking it is realtime safe, copying or destroying the std::function is not.
+struct Captured { long gain, offset, scale, lo, hi; };
+static std::function<void(const char *, rtosc::RtData &)> captured_callback(void)
+{
+    Captured c = {2, 1, 3, 0, 127};
+    return [c](const char *msg, rtosc::RtData &data) {
+        Mid *obj = (Mid *) data.obj;
+        if(rtosc_narguments(msg))
+            obj->count = (int) (rtosc_argument(msg, 0).i * c.gain + c.offset);
+        data.reply(data.loc, "i", obj->count);
+    };
+}
+
 #define rObject Leaf
 const rtosc::Ports Leaf::ports = {
     rParam(pc, "char parameter"),
@@ -150,6 +165,7 @@ const rtosc::Ports Mid::ports = {
             obj->freq = rtosc_argument(msg, 0).f;
             rCrossBroadcast(data.loc, cross)
         }},
+    {"big::i", rProp(parameter) rDoc("functor with captures"), NULL, captured_callback()},
     rRecur(sub, "sub object"),
     rRecurp(subp, "sub object pointer"),
     rRecurs(subs, 3, "sub object array"),
